@@ -20,7 +20,8 @@ Section Measure.
      legitimately declared for the model); for infinite variation see C04_mean_identity_infinite_variation below *)
   Hypothesis m1_add : forall a b c, a <= b -> b <= c -> m1 a c == m1 a b + m1 b c.
   Hypothesis m1_proper : forall a a' b b', a == a' -> b == b' -> m1 a b == m1 a' b'.
-  Variables l r pinf : Q.                (* truncation bounds = end points of the axis; pinf stands for np.inf *)
+  Variables l r pinf err : Q.            (* truncation bounds = end points of the axis; pinf stands for np.inf; err = value of a
+                                            `raise` of the generated conversions: the theorems hold for EVERY err under the guard *)
   Hypothesis l_le_r : l <= r.
   Hypothesis pinf_ge_1 : 1 <= pinf.
   Hypothesis pinf_left : - pinf <= l.     (* np.inf lies beyond both truncation bounds *)
@@ -30,14 +31,14 @@ Section Measure.
      representation (+ the model's own drift md, 0 for a Levy model, r-d+omega for the exponential wrapper),
      for each of ZERO/CENTER/ONEONE/TILDE (rep = 1..4) and both values of jump_of_finite_variation() *)
   Theorem C04_mean_identity : forall (mid mass : Q -> Q -> Q) xs o md rep fv a,
-    (o + 1 < length xs)%nat -> (rep = 1 \/ rep = 2 \/ rep = 3 \/ rep = 4)%Z ->
-    process_drift (tmass m1 l r) pinf md rep fv a (compute_mu_h mid mass xs o) + mean_of_rates mid mass xs o
+    (o + 1 < length xs)%nat -> (rep = 1 \/ rep = 2 \/ rep = 3 \/ rep = 4)%Z -> (fv = true \/ rep <> 1%Z) ->
+    process_drift (tmass m1 l r) pinf err md rep fv a (compute_mu_h mid mass xs o) + mean_of_rates mid mass xs o
     == md + mean_rate (tmass m1 l r) pinf rep fv a.
   Proof. intros. apply (mean_identity m1); assumption. Qed.
 
   (* the representation-conversion core: a~ + mu~ is the mean in every declared representation *)
-  Theorem C04_tilde_conversion : forall rep fv a, (rep = 1 \/ rep = 2 \/ rep = 3 \/ rep = 4)%Z ->
-    a_tilde (tmass m1 l r) pinf rep fv a + mu_tilde (tmass m1 l r) pinf fv == mean_rate (tmass m1 l r) pinf rep fv a.
+  Theorem C04_tilde_conversion : forall rep fv a, (rep = 1 \/ rep = 2 \/ rep = 3 \/ rep = 4)%Z -> (fv = true \/ rep <> 1%Z) ->
+    a_tilde (tmass m1 l r) pinf err rep fv a + mu_tilde (tmass m1 l r) pinf fv == mean_rate (tmass m1 l r) pinf rep fv a.
   Proof. intros. apply (mean_identity_core m1); assumption. Qed.
 
   (* the first cumulant in terms of the measure on [l,r]: ZERO: a + int_l^r x nu; CENTER: a; TILDE with finite variation:
@@ -49,20 +50,27 @@ Section Measure.
   Proof. intros. apply (mean_rate_explicit m1); assumption. Qed.
 
   (* representation invariance: the four generated conversions change the drift but never the first cumulant *)
-  Theorem C04_conversions_preserve_mean : forall rep fv a, (rep = 1 \/ rep = 2 \/ rep = 3 \/ rep = 4)%Z ->
-    mean_rate (tmass m1 l r) pinf 3 fv (canonical_drift (tmass m1 l r) pinf rep fv a) == mean_rate (tmass m1 l r) pinf rep fv a
-    /\ mean_rate (tmass m1 l r) pinf 1 fv (zero_drift (tmass m1 l r) pinf rep fv a) == mean_rate (tmass m1 l r) pinf rep fv a
-    /\ mean_rate (tmass m1 l r) pinf 2 fv (center_drift (tmass m1 l r) pinf rep fv a) == mean_rate (tmass m1 l r) pinf rep fv a
-    /\ mean_rate (tmass m1 l r) pinf 4 fv (tilde_drift (tmass m1 l r) pinf rep fv a) == mean_rate (tmass m1 l r) pinf rep fv a.
+  Theorem C04_conversions_preserve_mean : forall rep fv a, (rep = 1 \/ rep = 2 \/ rep = 3 \/ rep = 4)%Z -> (fv = true \/ rep <> 1%Z) ->
+    mean_rate (tmass m1 l r) pinf 3 fv (canonical_drift (tmass m1 l r) pinf err rep fv a) == mean_rate (tmass m1 l r) pinf rep fv a
+    /\ (fv = true -> mean_rate (tmass m1 l r) pinf 1 fv (zero_drift (tmass m1 l r) pinf err rep fv a) == mean_rate (tmass m1 l r) pinf rep fv a)
+    /\ mean_rate (tmass m1 l r) pinf 2 fv (center_drift (tmass m1 l r) pinf err rep fv a) == mean_rate (tmass m1 l r) pinf rep fv a
+    /\ mean_rate (tmass m1 l r) pinf 4 fv (tilde_drift (tmass m1 l r) pinf err rep fv a) == mean_rate (tmass m1 l r) pinf rep fv a.
   Proof. intros. apply (conversions_preserve_mean m1); assumption. Qed.
+
+  (* outside the guard (ZERO declared with jumps of infinite variation, or a conversion TO ZERO with infinite variation) the
+     generated conversions return the error value: levymodel.py raises ValueError *)
+  Theorem C04_zero_infinite_variation_is_error : forall a,
+    canonical_drift (tmass m1 l r) pinf err 1 false a = err /\ tilde_drift (tmass m1 l r) pinf err 1 false a == err
+    /\ a_tilde (tmass m1 l r) pinf err 1 false a == err /\ (forall rep, zero_drift (tmass m1 l r) pinf err rep false a = err).
+  Proof. intros. apply (zero_infinite_variation_is_error m1). Qed.
 
   (* what the copula chain did before the repair (cut-off of mu_tilde from the JOINT flag): the mean of a margin whose own
      flag differs from the joint one is off by the margin's int_{-1}^{1} x nu -- finding F-C04-2 *)
   Theorem C04_joint_flag_bias : forall (mid mass : Q -> Q -> Q) xs o md rep a,
-    (o + 1 < length xs)%nat -> (rep = 1 \/ rep = 2 \/ rep = 3 \/ rep = 4)%Z ->
-    process_drift_v (tmass m1 l r) pinf md rep true false a (compute_mu_h mid mass xs o) + mean_of_rates mid mass xs o
+    (o + 1 < length xs)%nat -> (rep = 2 \/ rep = 3 \/ rep = 4)%Z ->
+    process_drift_v (tmass m1 l r) pinf err md rep true false a (compute_mu_h mid mass xs o) + mean_of_rates mid mass xs o
     == md + mean_rate (tmass m1 l r) pinf rep true a - tmass m1 l r (- (1)) 1
-    /\ process_drift_v (tmass m1 l r) pinf md rep false true a (compute_mu_h mid mass xs o) + mean_of_rates mid mass xs o
+    /\ process_drift_v (tmass m1 l r) pinf err md rep false true a (compute_mu_h mid mass xs o) + mean_of_rates mid mass xs o
     == md + mean_rate (tmass m1 l r) pinf rep false a + tmass m1 l r (- (1)) 1.
   Proof. intros. apply (joint_flag_bias m1); assumption. Qed.
 
@@ -82,9 +90,9 @@ End Measure.
 
 (* infinite variation (fv = false), compensated representations CENTER / ONEONE / TILDE: the identity holds with NO hypothesis
    on the first-moment integral (only the tails |x| >= 1 are ever integrated; int |x| nu near 0 may be infinite) *)
-Theorem C04_mean_identity_infinite_variation : forall (m1t : Q -> Q -> Q) pinf (mid mass : Q -> Q -> Q) xs o md rep a,
+Theorem C04_mean_identity_infinite_variation : forall (m1t : Q -> Q -> Q) pinf err (mid mass : Q -> Q -> Q) xs o md rep a,
   (o + 1 < length xs)%nat -> (rep = 2 \/ rep = 3 \/ rep = 4)%Z ->
-  process_drift m1t pinf md rep false a (compute_mu_h mid mass xs o) + mean_of_rates mid mass xs o
+  process_drift m1t pinf err md rep false a (compute_mu_h mid mass xs o) + mean_of_rates mid mass xs o
   == md + mean_rate m1t pinf rep false a.
 Proof. exact mean_identity_iv. Qed.
 
@@ -115,6 +123,7 @@ Print Assumptions C04_mean_identity.
 Print Assumptions C04_tilde_conversion.
 Print Assumptions C04_mean_rate_explicit.
 Print Assumptions C04_conversions_preserve_mean.
+Print Assumptions C04_zero_infinite_variation_is_error.
 Print Assumptions C04_joint_flag_bias.
 Print Assumptions C04_variance_added.
 Print Assumptions C04_mean_identity_infinite_variation.
